@@ -53,9 +53,13 @@ def run(c: sym.Ctx, spec: Dict[str, Any], n_msgs: int = 1) -> Lab:
 
     failing = {tid_of(i) for i in range(n_msgs) if bfail[i]}
     broker = make_broker(lab, backend_fail=lambda tid: tid in failing, backend_gate=spec.get("backend_gate", n_msgs > 1))
-    for k, hooks in enumerate(spec.get("mws", [])):
-        broker.add_middlewares(make_middleware(lab, k, hooks, replace_message=spec.get("replace", False),
-                                               raising=spec.get("raising_hook") if k == spec.get("raising_mw", 0) else None))
+    late_from = spec.get("late_from")  # middlewares from this index on are registered after a first message was processed
+    all_mws = [make_middleware(lab, k, hooks, replace_message=spec.get("replace", False),
+                               raising=spec.get("raising_hook") if k == spec.get("raising_mw", 0) else None)
+               for k, hooks in enumerate(spec.get("mws", []))]
+    for k, mw in enumerate(all_mws):
+        if late_from is None or k < late_from:
+            broker.add_middlewares(mw)
 
     def outcome_of(i: int) -> str:
         return outcomes[i]
@@ -285,7 +289,20 @@ def run(c: sym.Ctx, spec: Dict[str, Any], n_msgs: int = 1) -> Lab:
         data = encode(broker, "t", tid_of(i), [i], labels, labels_types={"user": 3} if spec.get("partial_types", True) else None)
         msgs.append(ackable(lab, i, data, async_ack, gate_ack=n_msgs > 1) if spec.get("ackable", True) else data)
 
+    async def warm_target() -> None:
+        return None
+
+    if late_from is not None:
+        broker.register_task(warm_target, task_name="warm")
+
     async def main() -> None:
+        if late_from is not None:
+            # the worker has already processed a message when the remaining middlewares are added
+            await recv.callback(message=encode(broker, "warm", "warm", [], {}), raise_err=False)
+            for mw in all_mws[late_from:]:
+                broker.add_middlewares(mw)
+            del lab.ev[:]
+            del lab.ev_t[:]
         tasks = [asyncio.ensure_future(recv.callback(message=m, raise_err=False)) for m in msgs]
         res = await asyncio.gather(*tasks, return_exceptions=True)
         for i, r in enumerate(res):
